@@ -899,6 +899,7 @@ func runKSInterleave(t *testing.T, s ksIlSc) (res verifsim.Result) {
 			}
 		}
 		verifsim.Quiesce()
+		t0 := st.clock.Now() // crash instants before this one belong to the (sequential) set-up
 		// install gates
 		gateCh := make(chan gateReq, 64)
 		gate := func(c verifsim.Call) {
@@ -1105,6 +1106,98 @@ func runKSInterleave(t *testing.T, s ksIlSc) (res verifsim.Result) {
 		}
 		rk.Close()
 		closed = true
+		// ---- crash enumeration over this (schedule-dependent) history
+		allPut := map[int]bool{}
+		for _, p := range puts {
+			for _, x := range p.keys {
+				allPut[x] = true
+			}
+		}
+		ps := []physJ{{"meta", st.meta.Journal()}}
+		for _, name := range []string{"0", "1"} {
+			if d, ok := st.slot[name]; ok {
+				ps = append(ps, physJ{name, d.Journal()})
+			}
+		}
+		total := st.clock.Now()
+		for T := t0; T <= total; T++ {
+			lo := make([]int, len(ps))
+			hi := make([]int, len(ps))
+			for i, p := range ps {
+				hi[i] = verifsim.EntriesUpTo(p.j, T)
+				lo[i] = verifsim.LastSyncBefore(p.j, hi[i])
+			}
+			// extremes only (all lowest, all highest, each datastore lowest while the others are highest): the product can be large
+			var combos [][]int
+			combos = append(combos, append([]int(nil), hi...), append([]int(nil), lo...))
+			for i := range ps {
+				c := append([]int(nil), hi...)
+				c[i] = lo[i]
+				combos = append(combos, c)
+				c2 := append([]int(nil), lo...)
+				c2[i] = hi[i]
+				combos = append(combos, c2)
+			}
+			for _, cut := range combos {
+				res.Weight++
+				st2 := newStores()
+				st2.meta = verifsim.NewJournalDSFrom("meta", verifsim.StateAt(nil, ps[0].j, cut[0]))
+				st2.meta.Clock = st2.clock
+				for i, sl := range ps[1:] {
+					d := verifsim.NewJournalDSFrom("slot"+sl.name, verifsim.StateAt(nil, sl.j, cut[i+1]))
+					d.Clock = st2.clock
+					st2.slot[sl.name] = d
+				}
+				k3, _, err := openKS(base, st2)
+				if err != nil {
+					res.Fail("crash/reopen", "C20/interleave/crash-reopen", "crash T=%d cuts %v: %v", T, cut, err)
+					return
+				}
+				got, size, err := contentsOf(ctx, k3)
+				k3.Close()
+				if err != nil {
+					res.Fail("crash/read", "C20/interleave/crash-read", "crash T=%d: %v", T, err)
+					return
+				}
+				gs := setOf(got)
+				for _, p := range puts {
+					if p.ackT >= 0 && p.ackT <= T {
+						for _, x := range p.keys {
+							if !gs[x] {
+								res.Fail("crash/acked-puts-kept", "C20/interleave/crash-acked-put-lost", "crash at instant %d (cuts %v, mode %s): key %d whose Put was acknowledged at instant %d is missing; contents %v old %v new %v", T, cut, s.Mode, x, p.ackT, got, old, nw)
+								return
+							}
+						}
+					}
+				}
+				rest := map[int]bool{}
+				for _, g := range got {
+					if !allPut[g] {
+						rest[g] = true
+					}
+				}
+				eqRef := func(ref []int) bool {
+					n := 0
+					for _, x := range ref {
+						if !allPut[x] {
+							if !rest[x] {
+								return false
+							}
+							n++
+						}
+					}
+					return n == len(rest)
+				}
+				if !eqRef(old) && !eqRef(nw) {
+					res.Fail("crash/old-or-new", "C20/interleave/crash-mixture", "crash at instant %d (cuts %v, mode %s): contents %v are a mixture/partial set; old %v new %v concurrent puts %v", T, cut, s.Mode, got, old, nw, sortedKeys(allPut))
+					return
+				}
+				if size != len(got) {
+					res.Fail("crash/size", "C20/interleave/crash-size", "crash at instant %d: Size %d but %d keys", T, size, len(got))
+					return
+				}
+			}
+		}
 		k2, _, err := openKS(base, st)
 		if err != nil {
 			res.Fail("open", "C20/open/error", "reopen: %v", err)
